@@ -64,8 +64,16 @@ def main():
         if cfg != 'quick':
             # obligations of extra configurations are keyed apart
             pass
-    if tier == 'thorough' and hasattr(mod, 'thorough_extra'):
-        mod.thorough_extra(rep)
+    if tier == 'thorough' and os.environ.get('BA_NO_AUDIT') != '1':
+        import audit
+        t = time.time()
+        res = audit.run_audit(pid, mod, load)
+        res['wall_s'] = round(time.time() - t, 1)
+        rep.extra['sensitivity_audit'] = res
+        print('   sensitivity audit: %d break patches detected, %d missed, %d refactors silent, %d false alarms on refactors, %d stale (%.0fs)' % (
+            res['detected'], res['missed'], res['silent_on_refactors'], res['false_alarms_on_refactors'], res['stale'], res['wall_s']))
+        for e in res['patches']:
+            print('     %-45s %s' % (e['id'], e['verdict']))
     rc = rep.finish(all_stats, ','.join(fdirs))
     sys.exit(rc)
 
